@@ -371,9 +371,29 @@ def r3(ctx):
     ok = len(init) == 1 and U(init[0].value.args[0]).replace(" ", "") == "(self.size,self.size)"
     dn = U(init[0].targets[0]) if init else "dense"
     lp = [n for n in walk_own(f.node) if isinstance(n, ast.For)]
-    ok = ok and len(lp) == 1 and U(lp[0].iter) == "range(self.current_index)"
     both = False
-    if ok:
+    zipped = False
+    if ok and len(lp) == 1 and U(lp[0].iter) != "range(self.current_index)":
+        # the same walk over the filled prefix written as a zip of the three parallel arrays
+        from engine import rowstream as RS
+        try:
+            bound, stream = RS.bind_loop(lp[0], env)
+        except RS.Undecided as e:
+            raise AnalysisError(f"{f.site()}: the loop filling the dense matrix is neither `range(self.current_index)` nor a zip of the stored arrays ({e})")
+        role = {}
+        for nm, fl in bound.items():
+            if fl.root == "self" and fl.attr in ("row_indices", "col_indices", "values") and fl.col is None and not fl.transforms \
+                    and str(fl.selector).replace(" ", "") in (":self.current_index", "0:self.current_index", "slice(0,self.current_index)", "slice(self.current_index)"):
+                role[fl.attr] = nm
+        if len(role) == 3 and not stream.filters:
+            zipped = True
+            r_, c_, v_ = role["row_indices"], role["col_indices"], role["values"]
+            st = {U(n.targets[0]).replace(" ", ""): U(n.value).replace(" ", "") for n in lp[0].body if isinstance(n, ast.Assign)}
+            both = st == {f"{dn}[{r_},{c_}]": v_, f"{dn}[{c_},{r_}]": v_} and len(lp[0].body) == 2
+        else:
+            raise AnalysisError(f"{f.site()}: the zipped loop filling the dense matrix does not run over the filled prefixes of row_indices / col_indices / values")
+    ok = ok and len(lp) == 1 and (zipped or U(lp[0].iter) == "range(self.current_index)")
+    if ok and not zipped:
         i = U(lp[0].target)
         st = {U(n.targets[0]).replace(" ", ""): U(n.value).replace(" ", "") for n in lp[0].body if isinstance(n, ast.Assign)}
         both = st == {f"{dn}[self.row_indices[{i}],self.col_indices[{i}]]": f"self.values[{i}]", f"{dn}[self.col_indices[{i}],self.row_indices[{i}]]": f"self.values[{i}]"}
@@ -440,7 +460,8 @@ def r4(ctx):
     copies = {}
     for x in walk_own(f.node):
         if isinstance(x, ast.Assign) and len(x.targets) == 1 and isinstance(x.targets[0], ast.Subscript) and isinstance(x.targets[0].value, ast.Attribute) and U(x.targets[0].value.value) == comp:
-            copies[x.targets[0].value.attr] = U(inline(x.value, env)).replace(" ", "")
+            import re as _re2
+            copies[x.targets[0].value.attr] = _re2.sub(r"\[:([^\[\]]*)\)\]", r"[:\1]", U(inline(x.value, env)).replace(" ", "").replace("[slice(0,", "[:").replace("[0:", "[:"))
     from_self = all(copies.get(k) == f"self.{k}[:self.current_index]" for k in ("row_indices", "col_indices", "values"))
     prefix_zips = [prefix_zip] + ([f"zip(self.row_indices[:self.current_index],self.col_indices[:self.current_index])"] if from_self else [])
     # candidate guards: enclosing ifs of the add_value call, and earlier `if <test>: continue` statements of the loop body
@@ -473,7 +494,14 @@ def r4(ctx):
             if not good_coll and isinstance(coll, ast.Name):
                 init = [x.value for x in walk_own(f.node) if isinstance(x, ast.Assign) and U(x.targets[0]) == coll.id]
                 adds_to = [c for c in calls(loop, tail="add") if U(c.func.value) == coll.id]
-                init_t = U(strip_int(inline(init[0], {k: v for k, v in env.items() if k != comp}))).replace(" ", "") if len(init) == 1 else ""
+                init_e = strip_int(inline(init[0], {k: v for k, v in env.items() if k != comp})) if len(init) == 1 else None
+                # {(r, c) for r, c in zip(..)}  is  set(zip(..)) ;  X[slice(0, n)] / X[0:n]  is  X[:n]
+                if isinstance(init_e, ast.SetComp) and len(init_e.generators) == 1 and not init_e.generators[0].ifs and isinstance(init_e.elt, ast.Tuple) \
+                        and isinstance(init_e.generators[0].target, ast.Tuple) and [U(x) for x in init_e.elt.elts] == [U(x) for x in init_e.generators[0].target.elts]:
+                    init_e = ast.Call(func=ast.Name(id="set", ctx=ast.Load()), args=[init_e.generators[0].iter], keywords=[])
+                init_t = U(init_e).replace(" ", "").replace("[slice(0,", "[:").replace("[0:", "[:") if init_e is not None else ""
+                import re as _re
+                init_t = _re.sub(r"\[:([^\[\]]*)\)\]", r"[:\1]", init_t)
                 if len(init) == 1 and any(init_t in (f"set({pz})", f"{{*{pz}}}") for pz in prefix_zips):
                     upd = any(U(strip_int(inline(c.args[0], lenv))).replace(" ", "").strip("()").split(",") == want_key and c.lineno > adds[0].lineno for c in adds_to)
                     good_coll = upd
@@ -648,6 +676,8 @@ def r7(ctx):
     cq = f"batchie.{DC}.ChunkedDistanceMatrix"
     sf = ctx.fn(f"{cq}.save")
     W = common.h5_writes(sf.node)
+    senv = single_defs(sf.node)
+    W = {k: (inline(v, senv) if isinstance(v, ast.AST) else v) for k, v in W.items()}       # values named by a local first are read through
     want = {"row_indices": "self.row_indices[:self.current_index]", "col_indices": "self.col_indices[:self.current_index]", "values": "self.values[:self.current_index]"}
     for key, w in want.items():
         v = W.get(("ds", key))
